@@ -20,12 +20,29 @@ def _mk(decisions, cut_at=None):
     it = Interp(mapper.PROG, decisions, keys=KeyTheory(mapper.DOMAIN))
     if cut_at is not None:
         orig = it.choose
+        orig_decide = it.decide
+        orig_eq = it.decide_eq
+
+        def exploring():
+            return it.dpos >= len(it.decisions) and len(it.decisions) >= cut_at
 
         def choose(n):
-            if n > 1 and it.dpos >= len(it.decisions) and len(it.decisions) >= cut_at:
+            if n > 1 and exploring():
                 raise Cut()
             return orig(n)
+
+        def decide(cond):
+            if not isinstance(cond, (bool, int)) and exploring():
+                raise Cut()
+            return orig_decide(cond)
+
+        def decide_eq(a, b):
+            if exploring() and it.keys.ask(a.name if hasattr(a, 'name') else a, b.name if hasattr(b, 'name') else b) is None:
+                raise Cut()
+            return orig_eq(a, b)
         it.choose = choose
+        it.decide = decide
+        it.decide_eq = decide_eq
     return it
 
 
